@@ -238,7 +238,9 @@ Proof.
   rewrite (N.eqb_sym (g_self g) id).
   destruct (negb (g_self g =? 0) && (pk =? own_pk) && negb (id =? g_self g)); simpl; [split; reflexivity|].
   assert (Hf : (if ops_read_committed then ahas id D else ahas id (g_ops g)) = ahas id (g_ops g)).
-  { destruct ops_read_committed eqn:F; [|reflexivity]. apply Hag; [exact F|apply Hfresh; exact F]. }
+  { unfold dbagree in Hag. revert Hag Hfresh.
+    destruct ops_read_committed; intros Hag Hfresh; [|reflexivity].
+    apply Hag; [reflexivity|apply Hfresh; reflexivity]. }
   rewrite Hf. destruct (ahas id (g_ops g)); simpl; split; reflexivity.
 Qed.
 
